@@ -17,6 +17,10 @@ impl HasKey<Public> for V3 {
     type Key = PublicKey;
 
     fn decode(bytes: &[u8]) -> Result<PublicKey, PasetoError> {
+        // v3 public keys are 49-byte compressed points; other SEC1 forms of the same point are not accepted
+        if bytes.len() != 49 {
+            return Err(PasetoError::InvalidKey);
+        }
         p384::ecdsa::VerifyingKey::from_sec1_bytes(bytes)
             .map(PublicKey)
             .map_err(|_| PasetoError::InvalidKey)
